@@ -120,6 +120,19 @@ class WorldX:
         return snap, battery.evaluate(self.vs, self.ls, [self.uni], level=2, searches=False)
 
 
+def raw_neighbors(v, d=0, u=2, f=None):
+    """The library's own return value (C12 mutates it itself), direction / handling constants translated by name."""
+    from edgegraph.traversal import helpers
+
+    return helpers.neighbors(v, h.D(d), h.U(u), f)
+
+
+def raw_find_links(a, b, ds=True, u=2, f=None):
+    from edgegraph.traversal import helpers
+
+    return helpers.find_links(a, b, ds, h.U(u), f)
+
+
 def out_points(W):
     from edgegraph.traversal import breadthfirst as B
     from edgegraph.traversal import depthfirst as D
@@ -132,15 +145,15 @@ def out_points(W):
         ("Universe.vertices", lambda: W.uni.vertices),
         ("edge_whitelist", lambda: W.laws.edge_whitelist),
         ("edge_whitelist.inner", lambda: next(iter(W.laws.edge_whitelist.values()))),
-        ("neighbors()", lambda: h.neighbors(a, 1, 1)),
+        ("neighbors()", lambda: raw_neighbors(a, 1, 1)),
         # a genuine cache MISS: invalidate a's cache by a structural no-op (re-adding a link it already has),
         # then query - the list returned by the cache-FILLING call must not be the cached object either
-        ("neighbors()after-invalidation", lambda: (a.add_to_link(a.links[0]) if a.links else None, h.neighbors(a, 1, 1))[1]),
-        ("neighbors(filter)after-invalidation", lambda: (b.add_to_link(b.links[-1]) if b.links else None, h.neighbors(b, 2, 1, battery.f_accept))[1]),
-        ("neighbors()second-call", lambda: (h.neighbors(a, 1, 1), h.neighbors(a, 1, 1))[1]),
-        ("neighbors(filter)", lambda: h.neighbors(a, 0, 1, battery.f_accept)),
-        ("neighbors(filter)second-call", lambda: (h.neighbors(b, 2, 1, battery.f_accept), h.neighbors(b, 2, 1, battery.f_accept))[1]),
-        ("find_links()", lambda: h.find_links(a, b, False, 1)),
+        ("neighbors()after-invalidation", lambda: (a.add_to_link(a.links[0]) if a.links else None, raw_neighbors(a, 1, 1))[1]),
+        ("neighbors(filter)after-invalidation", lambda: (b.add_to_link(b.links[-1]) if b.links else None, raw_neighbors(b, 2, 1, battery.f_accept))[1]),
+        ("neighbors()second-call", lambda: (raw_neighbors(a, 1, 1), raw_neighbors(a, 1, 1))[1]),
+        ("neighbors(filter)", lambda: raw_neighbors(a, 0, 1, battery.f_accept)),
+        ("neighbors(filter)second-call", lambda: (raw_neighbors(b, 2, 1, battery.f_accept), raw_neighbors(b, 2, 1, battery.f_accept))[1]),
+        ("find_links()", lambda: raw_find_links(a, b, False, 1)),
         ("bft()", lambda: B.bft(None, a, **h.kw(1, 1))),
         ("dft_recursive()", lambda: D.dft_recursive(None, a, **h.kw(1, 1))),
         ("dft_iterative()", lambda: D.dft_iterative(None, a, **h.kw(1, 1))),
@@ -190,6 +203,21 @@ def check_case(case):
                     outcome = "empty"
                 classes[f"out:{name}:{outcome}"] = classes.get(f"out:{name}:{outcome}", 0) + 1
                 verify(f"{name} then .{mname}")
+            # two reads with NOTHING in between: the two containers must be independent of each other
+            if not name.endswith("after-invalidation"):
+                c1, c2 = get(), get()
+                if isinstance(c2, (list, set, dict)):
+                    ident = lambda c: [(id(k), id(v)) for k, v in c.items()] if isinstance(c, dict) else [id(x) for x in c]
+                    before2 = ident(c2)
+                    for mname, mut in mutations(c1, junk):
+                        try:
+                            mut()
+                        except IMMUTABLE_ERRORS + EMPTY_ERRORS:
+                            continue
+                        after2 = ident(c2)
+                        if after2 != before2:
+                            raise Violation(f"two-reads-share-one-container:{name}", f"{name} read twice in a row: .{mname} on the first result changed the second one (caching={case['cache']})")
+                    verify(f"{name} read twice, first result mutated")
         # ---------------- containers taken IN
         succeeded += _in_points(W, case, junk, verify, classes)
         # ---------------- unlink(destroy=False) result (changes the world: last, on its own baseline)
@@ -322,7 +350,7 @@ def _in_points(W, case, junk, verify, classes):
         row0, row1 = [[fresh[1], fresh[2]], [fresh[1]], []][(W.a + W.b) % 3], [fresh[0]]
         adj = {fresh[0]: row0, fresh[1]: row1}
         u = adjlist.load_adj_dict(adj)
-        return [adj, row0, row1], lambda: ([x.i for x in u.vertices], [[(l.v1.i, l.v2.i) for l in v.links] for v in fresh])
+        return [adj, row0, row1], lambda: ([getattr(x, 'i', '?') for x in u.vertices], [[(getattr(l.v1, 'i', '?'), getattr(l.v2, 'i', '?')) for l in v.links] for v in fresh])
 
     def mk_adjmatrix():
         fresh = [Vertex(attributes={"i": 200 + i}) for i in range(3)]
@@ -330,7 +358,7 @@ def _in_points(W, case, junk, verify, classes):
         matrix = [r0, r1, r2]
         side = list(fresh)
         u = adjmatrix.load_adj_matrix(matrix, side)
-        return [matrix, r0, side], lambda: ([x.i for x in u.vertices], [[(l.v1.i, l.v2.i) for l in v.links] for v in fresh])
+        return [matrix, r0, side], lambda: ([getattr(x, 'i', '?') for x in u.vertices], [[(getattr(l.v1, 'i', '?'), getattr(l.v2, 'i', '?')) for l in v.links] for v in fresh])
 
     for name, mk in (("Vertex(links,universes,attributes)", mk_vertex), ("Link(vertices)", mk_link), ("Universe(vertices)", mk_universe),
                      ("Universe(vertices: 257+ entries)", mk_universe_big), ("Link(vertices: 260 entries)", mk_link_big),
